@@ -19,9 +19,12 @@ enum Ev {
     Success(DVal, Vec<u8>),
 }
 
-fn run_acc<const N: usize>(t: &DTy, chunks: &[Vec<u8>], by_ref: bool) -> Result<Vec<(Ev, Vec<u8>)>, String> {
+fn run_acc<const N: usize>(t: &DTy, chunks: &[Vec<u8>], mode: u8) -> Result<Vec<(Ev, Vec<u8>)>, String> {
     let mut acc: CobsAccumulator<N> = CobsAccumulator::new();
     let mut out = Vec::new();
+    // which entry point serves call number k on this ONE accumulator: 0 = always feed, 1 = always feed_ref,
+    // 2 / 3 = alternating (starting with feed_ref / feed), 4 = a fixed pseudo-random pattern
+    let mut calls = 0u64;
     for c in chunks {
         let mut window: &[u8] = &c[..];
         let mut iters = 0usize;
@@ -33,6 +36,14 @@ fn run_acc<const N: usize>(t: &DTy, chunks: &[Vec<u8>], by_ref: bool) -> Result<
             if iters > 2 * c.len() + 2 {
                 return Err("FAIL the documented feed loop did not terminate within 2*len+2 calls".into());
             }
+            let by_ref = match mode {
+                0 => false,
+                1 => true,
+                2 => calls % 2 == 0,
+                3 => calls % 2 == 1,
+                _ => (calls.wrapping_mul(0x9E37_79B9_7F4A_7C15) >> 61) & 1 == 1,
+            };
+            calls += 1;
             let r: FeedResult<'_, DynVal> = with_ty(t, || if by_ref { acc.feed_ref::<DynVal>(window) } else { acc.feed::<DynVal>(window) });
             let (ev, next) = match r {
                 FeedResult::Consumed => (Ev::Consumed, None),
@@ -56,7 +67,7 @@ fn run_acc<const N: usize>(t: &DTy, chunks: &[Vec<u8>], by_ref: bool) -> Result<
     Ok(out)
 }
 
-fn run_n(n: usize, t: &DTy, chunks: &[Vec<u8>], by_ref: bool) -> Option<Result<Vec<(Ev, Vec<u8>)>, String>> {
+fn run_n(n: usize, t: &DTy, chunks: &[Vec<u8>], by_ref: u8) -> Option<Result<Vec<(Ev, Vec<u8>)>, String>> {
     Some(match n {
         1 => run_acc::<1>(t, chunks, by_ref),
         2 => run_acc::<2>(t, chunks, by_ref),
@@ -108,7 +119,7 @@ pub fn eval(ctx: &mut Ctx, op: &str, args: &[Sexp]) -> Option<String> {
         let mut chunks = vec![chunk; count];
         chunks.push(tail);
         let mut answers = Vec::new();
-        for by_ref in [false, true] {
+        for by_ref in [0u8, 1] {
             let evs = match guard(|| run_n(n, &t, &chunks, by_ref)) {
                 Err(()) => {
                     ctx.oracle_fail("the accumulator panicked during a long history".into());
@@ -148,14 +159,27 @@ pub fn eval(ctx: &mut Ctx, op: &str, args: &[Sexp]) -> Option<String> {
     for a in &args[2..] {
         chunks.push(unhex(a.atom()?)?);
     }
-    let r = match guard(|| run_n(n, &t, &chunks, false)) {
+    let r = match guard(|| run_n(n, &t, &chunks, 0)) {
         Err(()) => return Some("FAIL panic in CobsAccumulator::feed".into()),
         Ok(r) => r?,
     };
-    let r2 = match guard(|| run_n(n, &t, &chunks, true)) {
+    let r2 = match guard(|| run_n(n, &t, &chunks, 1)) {
         Err(()) => return Some("FAIL panic in CobsAccumulator::feed_ref".into()),
         Ok(r) => r?,
     };
+    // the two entry points MIXED on one accumulator (alternating both ways, and a fixed irregular pattern)
+    // must behave like either of them alone: the buffered state is shared
+    for mode in [2u8, 3, 4] {
+        match guard(|| run_n(n, &t, &chunks, mode)) {
+            Err(()) => return Some("FAIL panic when feed and feed_ref are mixed on one accumulator".into()),
+            Ok(rm) => match (rm?, &r) {
+                (Ok(a), Ok(b)) if a == *b => {}
+                (Err(e), _) => return Some(e),
+                (Ok(_), Err(_)) => {}
+                (Ok(_), Ok(_)) => return Some(format!("FAIL mixing feed and feed_ref on one accumulator (pattern {}) gives different results than feed alone", mode)),
+            },
+        }
+    }
     let evs = match (r, r2) {
         (Ok(a), Ok(b)) => {
             if a != b {
